@@ -378,12 +378,122 @@ def main(argv):
                 c.violation("tool/case-key: apply_case did not find the keys train_case wrote: output %r (status %s), expected %r" % (so2[:200], st2, want2),
                             {"op": "apply_case", "model": so[:600].decode("latin1"), "stdout": so2[:300].decode("latin1"), "stderr": se2[-300:].decode("latin1"), "expected": want2.decode("latin1")})
 
+    # train_case on several sentences (repeated and alternating words, the same source index in consecutive sentences):
+    # the model it writes must be exactly {64A(lower(target), 64A(source)) : {cased target : count}} over all aligned
+    # pairs except those touching the first word of a sentence
+    if "train_case" in tools:
+        sents = [[(b"Der", b"The"), (b"haus", b"House"), (b"maus", b"house"), (b"klein", b"little")],
+                 [(b"haus", b"house")],
+                 [(b"klein", b"House"), (b"haus", b"House"), (b"haus", b"Little")],
+                 [(b"Der", b"House"), (b"klein", b"little"), (b"klein", b"little")]]
+        al_b, src_b, tgt_b = b"", b"", b""
+        expect = {}
+        for n_, pairs2 in enumerate(sents):
+            a1, s1, t1 = giza_case_inputs(pairs2)
+            al_b += a1.replace(b"(1)", b"(%d)" % (n_ + 1))
+            src_b += s1
+            tgt_b += t1
+            for s_, t_ in pairs2:
+                k = murmur64a_py(t_.lower(), murmur64a_py(s_, 0))
+                expect.setdefault(k, {}).setdefault(t_, 0)
+                expect[k][t_] += 1
+        fa3, fs3, ft3 = [os.path.join(SCRATCH, n_) for n_ in ("m.align", "m.src", "m.tgt")]
+        for p_, d_ in ((fa3, al_b), (fs3, src_b), (ft3, tgt_b)):
+            open(p_, "wb").write(d_)
+        st, so, se = run_tool([repo_bin("train_case"), fa3, fs3, ft3], timeout=60)
+        got = {}
+        try:
+            for l in so.split(b"\n"):
+                if l:
+                    parts = l.split(b"\t")
+                    got[int(parts[0])] = {w.rsplit(b" ", 1)[0]: int(w.rsplit(b" ", 1)[1]) for w in parts[1:]}
+        except Exception:
+            got = None
+        c.count(("train_case-multi",), bucket="tool/train_case-multisentence")
+        c.cov["traces_validated_against_impl"] += 1
+        if st != 0 or got != expect:
+            c.violation("tool/case-model: train_case on %d sentences wrote the model %r (status %s); the keys 64A(lower(target), 64A(source)) with counts are %r" % (
+                len(sents), got if got is not None else so[:300], st, expect),
+                {"op": "train_case", "kind": "model", "align": al_b.decode("latin1"), "source": src_b.decode("latin1"), "target": tgt_b.decode("latin1"),
+                 "stdout": so[:1500].decode("latin1"), "expected": {str(k): {w.decode(): n2 for w, n2 in v.items()} for k, v in expect.items()}})
+
+    # apply_case on multi-line inputs against a hand-written model: the key looked up for every alignment point of every
+    # line is 64A(lower(target word), 64A(source word)) whatever was processed before (consecutive lines whose last /
+    # first alignment points share a source index, one-word lines all aligned 0-0, unsorted alignments, repeated indices)
+    if "apply_case" in tools:
+        known = {(b"World", b"welt"): b"Welt", (b"Peace", b"frieden"): b"Frieden", (b"House", b"haus"): b"Haus", (b"the", b"die"): b"Die",
+                 (b"Green", b"gruen"): b"Gruen", (b"x" * 9, b"lang"): b"LANG", (b"a", b"ein"): b"Ein"}
+        best = {murmur64a_py(low, murmur64a_py(src, 0)): cased for (src, low), cased in known.items()}
+        fm = os.path.join(SCRATCH, "handmodel")
+        open(fm, "wb").write(b"".join(b"%d\t%s 3\n" % (k, v) for k, v in best.items()))
+        srcs = [b"World", b"Peace", b"House", b"the", b"Green", b"x" * 9, b"a", b"other"]
+        lows = [b"welt", b"frieden", b"haus", b"die", b"gruen", b"lang", b"ein", b"sonst"]
+
+        def apply_py(test):
+            res = []
+            for sw, tw, al in test:
+                tw = list(tw)
+                for a, b in al:
+                    k = murmur64a_py(tw[b].lower(), murmur64a_py(sw[a], 0))
+                    if k in best:
+                        tw[b] = best[k]
+                res.append(b" ".join(tw))
+            return res
+        tests = []
+        # one-word lines, all aligned 0-0, every ordered pair of (source, target) following every other
+        t0 = []
+        for i in range(len(srcs)):
+            for j in (i, (i + 1) % len(srcs), (i + 3) % len(srcs)):
+                t0.append(([srcs[i]], [lows[j]], [(0, 0)]))
+        tests.append(t0)
+        tests.append([([srcs[i % 8]], [lows[(i * 3) % 8]], [(0, 0)]) for i in range(40)])
+        # lines that end on the source index the next line starts with; unsorted and repeated alignment points
+        for _ in range(6 if c.tier == "quick" else 60):
+            t = []
+            last = 0
+            for _ in range(rng.randrange(3, 12)):
+                n = rng.randrange(1, 4)
+                sw = [rng.choice(srcs) for _ in range(n)]
+                tw = [rng.choice(lows) for _ in range(n)]
+                al = [(rng.randrange(n), rng.randrange(n)) for _ in range(rng.randrange(1, 5))]
+                if last < n and rng.random() < 0.7:
+                    al[0] = (last, al[0][1])          # start on the index the previous line ended with
+                last = al[-1][0]
+                t.append((sw, tw, al))
+            tests.append(t)
+        for test in tests:
+            fs2, ft2, fa2 = [os.path.join(SCRATCH, n_) for n_ in ("a.src", "a.tgt", "a.align")]
+            open(fs2, "wb").write(b"".join(b" ".join(sw) + b"\n" for sw, tw, al in test))
+            open(ft2, "wb").write(b"".join(b" ".join(tw) + b"\n" for sw, tw, al in test))
+            open(fa2, "wb").write(b"".join(b"%d ||| %s\n" % (i, b" ".join(b"%d-%d" % p_ for p_ in al)) for i, (sw, tw, al) in enumerate(test)))
+            st, so, se = run_tool([repo_bin("apply_case"), fa2, fs2, ft2, fm], timeout=60)
+            want = apply_py(test)
+            got = so.split(b"\n")[:-1]
+            c.count(("apply_case-seq", len(test), tuple(tuple(x[2]) for x in test)), bucket="tool/apply_case-multiline")
+            c.cov["traces_validated_against_impl"] += 1
+            if st != 0 or got != want:
+                i = next((k for k in range(min(len(got), len(want))) if got[k] != want[k]), min(len(got), len(want)))
+                sw, tw, al = test[min(i, len(test) - 1)]
+                # the same line alone
+                open(fs2, "wb").write(b" ".join(sw) + b"\n")
+                open(ft2, "wb").write(b" ".join(tw) + b"\n")
+                open(fa2, "wb").write(b"0 ||| " + b" ".join(b"%d-%d" % p_ for p_ in al) + b"\n")
+                st1, so1, _ = run_tool([repo_bin("apply_case"), fa2, fs2, ft2, fm], timeout=60)
+                c.violation("tool/case-key-sequence: apply_case printed %r for line %d (source %r, target %r, alignment %r) of a %d-line input; the keys 64A(lower(target), 64A(source)) "
+                            "of the model give %r; the same line processed alone gives %r (status %s)" % (
+                                got[i] if i < len(got) else None, i, b" ".join(sw), b" ".join(tw), al, len(test), want[i] if i < len(want) else None, so1.strip(), st),
+                            {"op": "apply_case", "kind": "sequence", "line_index": i,
+                             "source_lines": [b" ".join(x[0]).decode("latin1") for x in test[:i + 1]], "target_lines": [b" ".join(x[1]).decode("latin1") for x in test[:i + 1]],
+                             "alignments": [" ".join("%d-%d" % p_ for p_ in x[2]) for x in test[:i + 1]], "model": open(fm, "rb").read().decode("latin1"),
+                             "impl_line": (got[i] if i < len(got) else b"").decode("latin1"), "expected_line": (want[i] if i < len(want) else b"").decode("latin1")})
+                break
+
     shutil.rmtree(SCRATCH, ignore_errors=True)
     return c.finish(level="proof",
                     rule="MurmurHash64A/Native: every length 0..%d x 8 start alignments x 4 seeds with the string ending <8 bytes before a PROT_NONE page (two fills) vs an independent "
                          "Python MurmurHash64A; extracted model vs implementation on every length 0..72 x 5 content kinds (incl. bytes >= 0x80 in the tail), longer samples, len < buffer, "
                          "field folds and shard indices (incl. n > 2^32); tools: mmhsum (0..2 MiB+, chained), order_independent_hash, shard placement (whole line and -f), "
-                         "train_case keys and apply_case lookup. distinct = distinct non-empty cases" % maxlen,
+                         "train_case keys and apply_case lookup (single line and multi-line sequences against a hand-written model), subtract_lines. distinct = distinct non-empty cases" % maxlen,
                     assumptions=["x86-64 little-endian, sizeof(void*) = 8 (MurmurHashNative = MurmurHash64A); the ARM memcpy branch and MurmurHash64B are not modelled",
                                  "uint64_t / size_t arithmetic is modelled as Z.land _ (2^64-1)",
                                  "ICU ToLower on ASCII words lower-cases them (train_case/apply_case tool test)"])
